@@ -21,7 +21,7 @@ namespace {
 
 struct C17 : Profile {
   const char* id() const override { return "C17"; }
-  long budget(const std::string& tier) const override { return tier == "thorough" ? 300000 : 10000; }
+  long budget(const std::string& tier) const override { return tier == "thorough" ? 300000 : 20000; }
   std::string rule() const override {
     return "plan = generated program with vf objects created, copied (b = a), stored into tables and tuples, passed to and returned from functions, overwritten, iterated "
            "(forall over a table of objects), used as temporaries (vf(1).me().tag()), with fault points / natural errors / cancel at statement #k as error exits, followed by a "
